@@ -57,20 +57,33 @@ Definition decode_aev (e : string * string) : aev :=
   else if String.eqb k "map_delete" then ADelete
   else ABad.
 
+(* WriteMessage: writes of the message into the buffered writer, the flush, and anything else *)
+Inductive wev := WChunk | WFlush | WHook | WRegister | WBad.
+Definition decode_wev (e : string * string) : wev :=
+  let k := fst e in
+  if String.eqb k "chunk_write" then WChunk
+  else if String.eqb k "flush" then WFlush
+  else if String.eqb k "written_hook" then WHook
+  else if String.eqb k "register" then WRegister
+  else WBad.
+
 Record tskel := {
+  k_wm : list wev;        (* WriteMessage *)
   k_wp : list tev;        (* WritePacket *)
   k_reg : list aev;       (* onPacketWriten *)
   k_unreg : list aev;     (* onPacketWriteFailed *)
   k_look : list aev }.    (* the lookup in parseAMFObject *)
 
 Definition repo_skel : tskel := Eval vm_compute in
-  {| k_wp := map decode_tev rtmp_WritePacket_skel;
+  {| k_wm := map decode_wev rtmp_WriteMessage_skel;
+     k_wp := map decode_tev rtmp_WritePacket_skel;
      k_reg := map decode_aev rtmp_onPacketWriten_skel;
      k_unreg := map decode_aev rtmp_onPacketWriteFailed_skel;
      k_look := map decode_aev rtmp_parseAMFObject_tx_skel |}.
 (* the pinned snapshot: bytes first, bookkeeping afterwards, no clean-up *)
 Definition old_skel : tskel :=
-  {| k_wp := [TMarshal; TWrite; TRegister];
+  {| k_wm := [WChunk; WChunk; WFlush; WHook];
+     k_wp := [TMarshal; TWrite; TRegister];
      k_reg := [ALock; AStore; AUnlock]; k_unreg := []; k_look := [ALock; ALoad; ADelete; AUnlock] |}.
 
 Fixpoint skel_eqb (a b : list (string * string)) : bool :=
@@ -79,17 +92,29 @@ Fixpoint skel_eqb (a b : list (string * string)) : bool :=
   | (x1, x2) :: a', (y1, y2) :: b' => String.eqb x1 y1 && String.eqb x2 y2 && skel_eqb a' b'
   | _, _ => false
   end.
+(* the seeded variant: registration inside WriteMessage, after the chunk writes and before the
+   flush -- "before Flush" is not enough, a chunk write can already complete the request at the
+   transport (bufio.Writer passes large writes through and flushes whenever its buffer is full) *)
+Definition before_flush_skel : tskel :=
+  {| k_wm := [WChunk; WChunk; WRegister; WFlush; WHook];
+     k_wp := [TMarshal; TWrite; TUnregFail];
+     k_reg := [ALock; AStore; AUnlock]; k_unreg := [ALock; ADelete; AUnlock];
+     k_look := [ALock; ALoad; ADelete; AUnlock] |}.
+
 (* the table is touched nowhere else (NewProtocol creates it before the Protocol is shared) *)
 Definition repo_sites_ok : bool := Eval vm_compute in
   skel_eqb rtmp_transactions_other_sites [("NewProtocol", "touches transactions")]%string.
 
-(* the decidable discipline: register before the transport write, clean up when the write fails,
-   every table access inside the lock *)
+(* the decidable discipline: register before WriteMessage is entered, i.e. before the FIRST write of
+   the request into the buffered writer (not merely before the flush: every chunk write is
+   transport-visible), WriteMessage itself only writes chunks, flushes and runs its hook; clean up
+   when the write fails; every table access inside the lock *)
 Definition tx_safeb (sk : tskel) : bool :=
-  match k_wp sk, k_reg sk, k_unreg sk, k_look sk with
-  | [TMarshal; TRegister; TWrite; TUnregFail], [ALock; AStore; AUnlock], [ALock; ADelete; AUnlock],
+  match k_wm sk, k_wp sk, k_reg sk, k_unreg sk, k_look sk with
+  | [WChunk; WChunk; WFlush; WHook],
+    [TMarshal; TRegister; TWrite; TUnregFail], [ALock; AStore; AUnlock], [ALock; ADelete; AUnlock],
     [ALock; ALoad; ADelete; AUnlock] => true
-  | _, _, _, _ => false
+  | _, _, _, _, _ => false
   end.
 
 (* instructions of one table access region; [st] and [de] say what a store / a delete is here *)
@@ -104,11 +129,26 @@ Definition aev_code (st de : mop) (e : aev) : list tinstr :=
   end.
 Definition access_code (st de : mop) (l : list aev) : list tinstr := flat_map (aev_code st de) l.
 
+(* WriteMessage of request k.  The request counts as handed to the transport from its FIRST chunk
+   write on (XWrite k: from then on the peer may hold all of it and answer); later chunk writes,
+   the flush and the hook change nothing the matching depends on.  A registration placed in here
+   runs where it stands. *)
+Fixpoint wm_code (sk_reg : list aev) (k : nat) (q : req) (first : bool) (l : list wev) : list tinstr :=
+  match l with
+  | [] => []
+  | WChunk :: r => (if first then [XWrite k] else []) ++ wm_code sk_reg k q false r
+  | WFlush :: r => (if first then [XWrite k] else []) ++ wm_code sk_reg k q false r
+  | WHook :: r => wm_code sk_reg k q first r
+  | WRegister :: r =>
+      (if needs q then access_code (MStore k) (MDelete k) sk_reg else []) ++ wm_code sk_reg k q first r
+  | WBad :: r => XBad :: wm_code sk_reg k q first r
+  end.
+
 Definition tev_code (sk : tskel) (k : nat) (q : req) (e : tev) : list tinstr :=
   match e with
   | TMarshal => [XMarshal]
   | TRegister => if needs q then access_code (MStore k) (MDelete k) (k_reg sk) else []
-  | TWrite => [XWrite k]
+  | TWrite => wm_code (k_reg sk) k q true (k_wm sk)
   | TUnregFail => if needs q && q_fail q then access_code (MStore k) (MDelete k) (k_unreg sk) else []
   | TBad => [XBad]
   end.
@@ -303,12 +343,15 @@ Definition find_cex (sk : tskel) : option (list nat) :=
                         answers the requests a.. (each already on the wire, k itself included) and
                         the reader decodes each answer before the write returns
          | (1 k)        the peer answers request k now; the reader decodes it
+         | (2 cs)       the writer sends SetChunkSize(cs) (changes how requests are cut into chunk
+                        writes on the real transport; no step of the model)
    observation: (0 (decode-result..) table-size raced)
      decode-result = (k 1) matched as connect response | (k 2) as createStream response
                    | (k 0) "No matched request"                                              *)
 Definition sx_req (x : sx) : option req :=
   match x with
   | SL [SZ tid; SZ name; SZ fail] => Some {| q_tid := tid; q_name := name; q_fail := negb (fail =? 0) |}
+  | SL [SZ tid; SZ name; SZ fail; SZ _] => Some {| q_tid := tid; q_name := name; q_fail := negb (fail =? 0) |}   (* request size: not the model's concern *)
   | _ => None
   end.
 Fixpoint sx_reqs (l : list sx) : option (list req) :=
@@ -354,6 +397,7 @@ Section Macro.
             Some (repeat 0%nat (S w) ++ flat_map answer_sched al ++ repeat 0%nat (length code - S w))
         end
     | SL [SZ 1; SZ k] => Some (answer_sched (Z.to_nat k))
+    | SL [SZ 2; SZ _] => Some []          (* SetChunkSize: no request, nothing to match *)
     | _ => None
     end.
   Fixpoint events_sched (es : list sx) : option (list nat) :=
